@@ -675,6 +675,70 @@ def rule_current_point(ctx, f, ast, rt, a):
                               "pdf/src/content.rs:%d" % arm["line"], detail="current_point = subpath_start = Some(p)")
 
 
+def _cp_paths(n, limit=512):
+    """control paths of a syntax subtree as (operator keywords written, current point assigned?) pairs: statements compose in sequence,
+    the arms of a `match` and the branches of an `if` are alternatives"""
+    def seq(a, b):
+        out = [(x[0] + y[0], x[1] or y[1]) for x in a for y in b]
+        return out[:limit]
+    if isinstance(n, list):
+        cur = [((), False)]
+        for x in n:
+            cur = seq(cur, _cp_paths(x, limit))
+        return cur
+    if not isinstance(n, dict):
+        return [((), False)]
+    k = n.get("k")
+    if k == "macro" and n.get("name") in ("write", "writeln"):
+        toks = (n.get("fmt") or "").replace("\\n", " ").split()
+        kw = toks[-1] if toks and "{" not in toks[-1] else None
+        return [((kw,), False)] if kw else [((), False)]
+    if k == "assign":
+        cur = _cp_paths(n.get("right"), limit)
+        if norm(n.get("left")) == "current_point":
+            cur = [(x[0], True) for x in cur]
+        return cur
+    if k == "match":
+        head = _cp_paths(n.get("on_tree"), limit)
+        alts = []
+        for arm in n.get("arms", []):
+            alts += _cp_paths(arm.get("body"), limit)
+        return seq(head, alts or [((), False)])
+    if k == "if":
+        head = _cp_paths(n.get("cond_tree"), limit)
+        alts = _cp_paths(n.get("then"), limit) + (_cp_paths(n.get("else"), limit) if n.get("else") else [((), False)])
+        return seq(head, alts)
+    cur = [((), False)]
+    for key in n:
+        if isinstance(n[key], (dict, list)) and key not in ("pat",):
+            cur = seq(cur, _cp_paths(n[key], limit))
+    return cur
+
+
+def rule_point_paths(ctx, ast, rt):
+    """seeded C08-9: `current_point = subpath_start` hoisted above the choice between `h` and the fused `s` / `b` / `b*` - the reader
+    returns to the subpath start only for a bare `h`, so after `s` the two sides disagree about the point the next `v` is chosen against"""
+    ctx.rule("C08-G1-path", "on every control path of every serializer arm: the arm assigns `current_point` on the path that writes operator keyword K "
+             "exactly when the reader's arm for K assigns its current point (`self.last`) - both sides move the point under the same operators, "
+             "shorthand by shorthand")
+    fns = ast.find("pdf/src/content.rs", "serialize_ops")
+    m = find_match(fns[0]["body"], 40) if fns else None
+    seen = set()
+    for arm in (m["arms"] if m else []):
+        for kws, assigned in _cp_paths(arm["body"]):
+            for kw in kws:
+                got = rt.get(kw)
+                if got is None or (kw, assigned) in seen:
+                    continue
+                seen.add((kw, assigned))
+                reader = any(l == "self.last" for l, r in got["assigns"])
+                ctx.check(reader == assigned, "C08-G1-path", "serialize_ops#%s.point-moves" % kw,
+                          "on a path that writes `%s` the serializer %s its current point, the reader's `%s` arm %s: the `v` shorthand of a following curve "
+                          "is chosen against a point the reader will not assume" % (kw, "moves" if assigned else "keeps", kw, "moves it" if reader else "keeps it"),
+                          "pdf/src/content.rs:%d" % arm["line"], detail="`%s`: writer moves=%s reader moves=%s" % (kw, assigned, reader))
+    ctx.floor("C08-G1-path", len({k for k, a_ in seen if a_}), 7, "operator keywords written on a path that moves the serializer's current point (h m l c v y re)")
+
+
 def rule_enum_cast(ctx, f, ast):
     """the serializer writes enumerated operands as `value as u8`: the enum's discriminants must be the specification's numbers"""
     ctx.rule("C08-SIB-enum", "an enumerated operand that the serializer writes as `<enum> as <int>` has the specification's number as the discriminant of each variant "
@@ -868,6 +932,7 @@ def run(ctx):
     rule_table(ctx, f, ast, rt)
     rule_sib(ctx, f, ast, rt, a)
     rule_current_point(ctx, f, ast, rt, a)
+    rule_point_paths(ctx, ast, rt)
     rule_enum_cast(ctx, f, ast)
     rule_display(ctx, f)
     rule_parts(ctx, f)
